@@ -299,7 +299,9 @@ class Interp:
         if nm == 'powi' and len(args) == 2:
             return TOP
         if nm == 'clip' and len(args) == 3:
-            return A(0)
+            # the clipped value is a different number than its input whenever a bound is active: a fresh opaque
+            # symbol (memoised when the call is replayed, so every later use of this result is the same symbol)
+            return S({self.fresh('clipped'): Fraction(1)})
         if nm in ('norm', 'norm_inf', 'norm_one', 'mean', 'minimum', 'maximum', 'sum') and len(args) == 1:
             u = elem_unit(A(0))
             return S(u) if u is not None else TOP
